@@ -172,6 +172,11 @@ func (self *Interpreter) forStatement(node ast.AnalyzedForStatement) *value.Inte
 
 loop:
 	for {
+		// an empty body contains nothing else which would observe the cancelation
+		if i := self.checkCancelation(node.Span()); i != nil {
+			return i
+		}
+
 		// loop control
 		currIterVar, shouldContinue := iterator()
 		if !shouldContinue {
